@@ -2,6 +2,10 @@
 Specs (specs/fn): EventCheck.tla transcribes the statement (WellFormed and its named clauses); EventCheckVec.tla lets TLC enumerate
 events with boundary field values and every small parent list, printing the verdict for each; every vector is run through
 eventcheck.Checkers.Validate on real tdag events (accept <=> WellFormed)."""
+import json
+import os
+import random
+
 import vlib
 from checks import fnlib
 
@@ -9,7 +13,57 @@ SINGLE = ["seq_range", "epoch_range", "frame_range", "lamport_range", "distinct"
           "self_first", "self_iff_seq", "self_seq"]
 
 
+def wide_cases(c):
+    """vectors with field values beyond 2^31 (up to 2^32-1): single-field changes of two well-formed events, wrap-arounds"""
+    rnd = random.Random(c.seed)
+    W = [2 ** 31 - 3, 2 ** 31 - 2, 2 ** 31 - 1, 2 ** 31, 2 ** 31 + 1, 2 ** 32 - 2, 2 ** 32 - 1]
+    sp = dict(creator=1, seq=1, lamport=3, k=1)
+    op = dict(creator=2, seq=7, lamport=2, k=2)
+    base2 = dict(e=dict(creator=1, epoch=5, seq=2, frame=3, lamport=4), ps=[sp, op], cur=5, vals=[1, 2])
+    base1 = dict(e=dict(creator=1, epoch=5, seq=1, frame=3, lamport=1), ps=[], cur=5, vals=[1, 2])
+    out = [base1, base2]
+    cp = lambda b: json.loads(json.dumps(b))
+    for b in (base1, base2):
+        for f in ("seq", "epoch", "frame", "lamport"):
+            for w in W:
+                v = cp(b)
+                v["e"][f] = w
+                if f == "epoch":
+                    v["cur"] = w                     # the epoch IS the current one, only its size is wrong
+                out.append(v)
+    for w in W:
+        # consistent big events: seq/lamport follow huge parents
+        v = cp(base2); v["ps"][0]["seq"] = w; v["e"]["seq"] = (w + 1) % 2 ** 32; out.append(v)
+        v = cp(base2); v["ps"][1]["lamport"] = w; v["e"]["lamport"] = (w + 1) % 2 ** 32; out.append(v)
+        v = cp(base2); v["ps"][1]["lamport"] = w; out.append(v)                                # huge parent lamport, small own one
+        v = cp(base2); v["ps"][1]["seq"] = w; out.append(v)                                    # other parent's seq is irrelevant
+        v = cp(base2); v["e"]["creator"] = w; v["ps"][0]["creator"] = w; v["vals"] = [w, 2]; out.append(v)   # huge validator id
+        v = cp(base2); v["e"]["creator"] = w; v["ps"][0]["creator"] = w; out.append(v)                        # ... not a validator
+    for _ in range(c.pick(20, 200)):
+        v = cp(rnd.choice([base1, base2]))
+        for f in rnd.sample(["seq", "epoch", "frame", "lamport"], rnd.randrange(1, 3)):
+            v["e"][f] = rnd.choice([rnd.choice(W), rnd.randrange(2 ** 31, 2 ** 32)])
+        if rnd.random() < 0.5:
+            v["cur"] = v["e"]["epoch"]
+        if v["ps"] and rnd.random() < 0.5:
+            v["ps"][0]["seq"] = (v["e"]["seq"] - 1) % 2 ** 32
+            v["ps"][1]["lamport"] = (v["e"]["lamport"] - 1) % 2 ** 32
+        out.append(v)
+    return out
+
+
 def run(c):
+    # ---- values beyond TLC's integers: record the real verdicts, Apalache compares them with WellFormed
+    win, wout = c.path("event_wide_in.ndjson"), c.path("event_wide_out.ndjson")
+    vlib.ndjson_write(win, wide_cases(c))
+    c.vh(["fnevent", win, wout])
+    wide = vlib.ndjson_read(wout)
+    with c._lock:
+        specdir = c._specdir("fn")
+    with open(os.path.join(specdir, "EventWide.tla"), "w") as f:
+        f.write(fnlib.event_wide_module("EventWide", wide))
+    wide_obl = fnlib.Obligations(c, "fn", "EventWide", [("recorded verdicts of Checkers.Validate on %d vectors with values up to 2^32-1 equal WellFormed" % len(wide),
+                                                         "Init", "All", True)], par=1)
     cfg = c.pick("MC_EventCheck_quick", "MC_EventCheck_thorough")
     out = c.path("eventcheck_vec.ndjson")
     res = c.tlc_must_pass("fn", "MC_EventCheck", cfg=cfg, edges_out=out, workers=c.pick(4, 6), timeout=c.pick(900, 3000))
@@ -22,19 +76,42 @@ def run(c):
     c.guard("well_formed", cnt.get("well_formed", 0))
     for n in SINGLE:
         c.guard("only_" + n, cnt.get("only_" + n, 0))
+    # ---- Apalache verdict on the wide vectors
+    wide_bad = []
+    try:
+        wide_obl.wait()
+    except vlib.Infra as e:
+        if "unexpected outcome" not in str(e):
+            raise
+        o2 = fnlib.Obligations(c, "fn", "EventWide", [("case %d" % k, "Init", "Case%d" % k, True) for k in range(len(wide))], par=3)
+        for f_ in o2.futs:
+            r = f_.result()
+            if not r["holds"]:
+                cs = wide[int(r["inv"][4:])]
+                wide_bad.append(cs)
+                c.violation("accept-iff-well-formed", "eventcheck:wide:%s" % ("accepted-ill-formed" if cs["accepted"] else "rejected-well-formed"),
+                            "Checkers.Validate %s %s; EventCheck!WellFormed (Apalache) says the opposite" % (
+                                "accepted" if cs["accepted"] else "rejected (%s)" % cs["error"], json.dumps(dict(e=cs["e"], ps=cs["ps"], cur=cs["cur"], vals=cs["vals"]))),
+                            replay=cs)
+        if not wide_bad:
+            raise vlib.Infra("EventWide conjunction failed but no single case does")
+    c.guard("wide_vectors_accepted", len([w for w in wide if w["accepted"]]))
+    c.guard("wide_vectors_rejected", len([w for w in wide if not w["accepted"]]))
     nontrivial = cnt.get("well_formed", 0) + cnt.get("violating_1_clauses", 0)
     return c.finish("exploration", dict(
-        evaluations=rep["vectors"],
+        evaluations=rep["vectors"] + len(wide),
+        wide_vectors_validated_by_apalache=len(wide), wide_vectors_disagreeing=len(wide_bad), apalache_runs=wide_obl.results,
         distinct_nontrivial=nontrivial if rep["distinct"] == rep["vectors"] else min(nontrivial, rep["distinct"]),
         rule="all states of EventCheckVec.tla for cfg %s: (fields) every combination of {0,1,2,2^31-3,2^31-2,2^31-1} for seq/epoch/lamport (frame: %s), "
              "current epoch equal/different, creator validator or not, with 8 parent-list templates; (parents) seq in {1,2,3} x lamport in {1..%d} with every "
              "parent list of length 0..%d over creator{self,other} x seq{-2,-1,0} x lamport{-2,-1,0} x {event, fork twin}, duplicates included. "
-             "Non-trivial = distinct vectors that are well-formed or violate exactly one clause of the statement (the acceptance boundary)" % (
-                 cfg, "4 values" if c.quick else "6 values", 3 if c.quick else 4, 2 if c.quick else 3),
+             "Plus %d vectors with values up to 2^32-1 validated by Apalache. Non-trivial = distinct TLC vectors that are well-formed or violate exactly one clause of the statement (the acceptance boundary)" % (
+                 cfg, "4 values" if c.quick else "6 values", 3 if c.quick else 4, 2 if c.quick else 3, len(wide)),
         vectors_by_class=cnt, states=res.distinct, transitions=res.generated, exhaustive=True,
         samples=rep["samples"],
     ), assumptions=[
-        "field values >= 2^31 are not enumerated (TLC integers are 32-bit); the statement's bound 2^31-2 and both neighbours are",
+        "field values >= 2^31 are not enumerated by TLC (32-bit integers); they are covered by a smaller set of vectors (single-field changes, wrap-arounds, "
+        "seeded random) whose real verdicts are validated by Apalache against the same WellFormed operator",
         "parents are real tdag.TestEvent objects of the event's epoch; entries with the same identity k are the same event (same hash)",
         "the parents slice handed to Validate corresponds to e.Parents() (the API panics otherwise)",
         "TLC, SANY and the Json module are trusted"])
